@@ -27,8 +27,21 @@ EXIT_OK, EXIT_VIOLATION, EXIT_HARNESS = 0, 1, 2
 def reexec() -> None:
     """Make the interpreter state a function of the command line only: fixed hash seed, no .pyc
     writes, unbuffered output. Called first thing by every entry point."""
-    if os.environ.get('PYTHONHASHSEED') != os.environ.get('VERIF_HASHSEED', '0') or not sys.flags.dont_write_bytecode:
+    if os.environ.get('PYTHONHASHSEED') != os.environ.get('VERIF_HASHSEED', '0') or not sys.flags.dont_write_bytecode \
+            or os.environ.get('VERIF_REEXEC') != '1':
         env = dict(os.environ)
+        env['VERIF_REEXEC'] = '1'
+        # address space layout randomisation off for the new image and everything forked from it: objects hashed by
+        # identity (sets of nodes, id()-keyed memos) iterate / collide the same way in every run of a seed
+        try:
+            import ctypes  # pylint: disable=import-outside-toplevel
+
+            libc = ctypes.CDLL(None, use_errno=True)
+            current = libc.personality(0xFFFFFFFF)
+            if current != -1:
+                libc.personality(current | 0x0040000)  # ADDR_NO_RANDOMIZE
+        except Exception:  # pylint: disable=broad-except
+            pass  # not available: runs stay correct, identity-order effects just are not repeatable
         env['PYTHONHASHSEED'] = env.get('VERIF_HASHSEED', '0')
         env['PYTHONDONTWRITEBYTECODE'] = '1'
         env['PYTHONUNBUFFERED'] = '1'
